@@ -177,9 +177,10 @@ def preemptions(decisions):
     return n
 
 
-def explore(run, bound=None, limit=None):
+def explore(run, bound=None, limit=None, result=lambda r: r):
     """Stateless depth-first enumeration of schedules.  `run(chooser)` must execute one complete run
-    and return an object with `.decisions` = [(enabled tuple, chosen)].  Yields every result.  Only
+    and return an object with `.decisions` = [(enabled tuple, chosen)]
+    (or something from which `result(...)` extracts it).  Yields every result.  Only
     schedules with at most `bound` preemptions (switching away from a thread that is still enabled)
     are generated; `limit` caps the number of runs (the generator then returns)."""
     prefix = []
@@ -190,7 +191,7 @@ def explore(run, bound=None, limit=None):
         yield res
         if limit is not None and count >= limit:
             return
-        dec = res.decisions
+        dec = result(res).decisions
         # preemptions before step i
         pre = [0]
         prev = None
@@ -221,11 +222,14 @@ class Result(object):
     def __init__(self):
         self.trace = []  # [Step]
         self.decisions = []  # [(enabled tuple, chosen)]
+        self.blocked = []  # per decision: parked threads that were not enabled (waiting for a lock / queue / join)
         self.returns = {}  # tid -> value returned by the worker callable
         self.errors = {}  # tid -> exception raised by the worker callable
         self.deadlock = None  # None or {tid: (file, line)} of the parked, disabled threads
         self.nthreads = 0
         self.parents = {}  # dynamically started thread -> (parent tid, step index)
+        self.calls = []  # (len(trace) at that moment, tid, function name) for every target-file frame entered
+        self.leaked = []
 
     @property
     def schedule(self):
@@ -274,6 +278,11 @@ class Scheduler(object):
         self.max_steps = max_steps
         self.runs = 0
 
+    def current(self):
+        """Scheduler id of the calling thread (None for unscheduled threads) and the number of
+        steps released so far - for instrumented objects that want to log who called them when."""
+        return self._idents.get(threading.get_ident()), len(self._result.trace)
+
     # -- thread side -------------------------------------------------------------------------
     def _tid_of_current(self):
         return self._idents.get(threading.get_ident())
@@ -292,6 +301,8 @@ class Scheduler(object):
 
         def glob(frame, event, arg):
             if frame.f_code.co_filename in targets:
+                # not a gate: which target-file function was entered during which step
+                self._result.calls.append((len(self._result.trace), tid, frame.f_code.co_name))
                 return local
             return None
 
@@ -424,6 +435,7 @@ class Scheduler(object):
                     g = self._parked[t]
                     note = g.rule.on_release(g) if g.rule is not None else g.label
                     res.decisions.append((tuple(enabled), t))
+                    res.blocked.append(tuple(x for x in sorted(self._parked) if x not in enabled))
                     res.trace.append(Step(t, g.file, g.line, g.func, note))
                     prev = t
                     self._turn = t
